@@ -118,6 +118,23 @@ func errClass(err error) string {
 	return "error"
 }
 
+// errKind tells the database's documented error values apart
+func errKind(err error) string {
+	switch {
+	case err == nil:
+		return "ok"
+	case errors.Is(err, simpledb.ErrNotFound):
+		return "notfound"
+	case errors.Is(err, simpledb.ErrEmptyKeyValue):
+		return "empty-key-or-value"
+	case errors.Is(err, simpledb.ErrNotOpenedYet):
+		return "not-opened-yet"
+	case errors.Is(err, simpledb.ErrAlreadyClosed):
+		return "already-closed"
+	}
+	return "error"
+}
+
 var apiDirectSync bool
 
 func apiNew(dir string, mem uint64) (*simpledb.DB, error) {
@@ -429,6 +446,17 @@ func runAPICase(c *Ctx, ac apiCase, tape *simrt.Tape, count bool) (vs []apiViola
 					if errClass(eS) != errClass(eB) || !bytes.Equal([]byte(vS), vB) {
 						add("flavours-disagree|get-"+state, fmt.Sprintf("%sGet = (%q, %s), GetBytes = (%q, %s)", desc, head([]byte(vS)), errClass(eS), head(vB), errClass(eB)))
 						return false
+					}
+					// an invalid call on such a handle: whichever of its two reasons the database reports, both flavours
+					// report the same one for the same bytes
+					for _, bad := range [][2]string{{"", "v"}, {k, ""}, {"", ""}} {
+						eS, eB := hS.Put(bad[0], bad[1]), putB(hB, bytesArg(bad[0], op.Nil), bytesArg(bad[1], op.Nil))
+						evals++
+						Beat()
+						if errKind(eS) != errKind(eB) {
+							add("flavours-disagree|put-invalid-"+state, fmt.Sprintf("%sPut(%q, %q) returned %v, PutBytes of the same bytes returned %v", desc, head([]byte(bad[0])), head([]byte(bad[1])), eS, eB))
+							return false
+						}
 					}
 					return true
 				}
